@@ -75,6 +75,10 @@ mod listener_select;
 mod negotiated;
 mod protocol;
 
+#[cfg(litep2p_verif)]
+#[path = "../verif/c03.rs"]
+pub(crate) mod verif_c03;
+
 use crate::error;
 pub use crate::multistream_select::{
     dialer_select::{dialer_select_proto, DialerSelectFuture, HandshakeResult, WebRtcDialerState},
